@@ -824,9 +824,9 @@ func checkReader(w *sys.World, sc *Scenario, h *sys.Handler, rs *readerState, wr
 				continue
 			}
 			for _, p := range list {
-				// the first packet at or after the wrap was handed to the stream after this
+				// the first packet at or after the wrap was (still being) written by the stream after this
 				// reader's SETUP, and the reader never saw a packet from before the wrap
-				if p.counter >= wrapCounter && p.callG >= rs.setupCallG {
+				if p.counter >= wrapCounter && p.retG >= rs.setupCallG { // the write may still have been in progress (held at a yield point) when SETUP built the MIKEY message
 					if p.counter > 0 {
 						w.Probe("srtp_wrap_between_setup_and_play_waived")
 						return
